@@ -7,4 +7,6 @@ require (
 	pgregory.net/rapid v1.3.0
 )
 
+require github.com/hack-pad/safejs v0.1.0 // indirect
+
 replace github.com/hack-pad/hackpadfs => /repo
